@@ -46,7 +46,7 @@ Theorem ite_spec s g u v r s' :
   match r with
   | Ok w => valid s' w ∧ minlvl3 s g u v ≤ lvl_of s' w ∧
             ∀ a, D s' w a = if D s g a then D s u a else D s v a
-  | Err e => e = ENeedsReordering ∧ is_Some (last_len s)
+  | Err e => benign s e
   end.
 Proof.
   intros HI Hg Hu Hv Hnr Hrun. unfold ite in Hrun.
@@ -58,26 +58,28 @@ Proof.
     [|change (nvars s0) with (nvars s); lia].
   destruct Hcase as [[-> Hctx]|[-> ->]].
   - (* a reordering request at top level with reordering disabled: impossible *)
-    destruct Hr as [_ [l Hl]]. destruct Hnr as [?|Hn]; [congruence|].
+    destruct Hr as [[_ [l Hl]]|[[=] _]]. destruct Hnr as [?|Hn]; [congruence|].
     change (last_len s0) with (last_len s) in Hl. congruence.
   - split_and!.
     + by apply Inv_rctx.
     + done.
-    + destruct Hf1 as (?&?&?&?). by split_and!.
+    + destruct Hf1 as (?&?&?&?&?). by split_and!.
     + destruct r1 as [w|e]; [|done]. destruct Hr as (?&?&HD).
       split_and!; try done. intros a. rewrite D_rctx, HD. unfold s0. by rewrite !D_rctx.
 Qed.
 
-(** when dynamic reordering is disabled nothing raises [_NeedsReordering] *)
+(** when dynamic reordering is disabled nothing raises [_NeedsReordering];
+    with an unbounded table the call succeeds *)
 Corollary ite_spec_off s g u v r s' :
   Inv s → valid s g → valid s u → valid s v → last_len s = None →
+  max_nodes s = None →
   ite g u v s = (r, s') →
   ∃ w, r = Ok w ∧ Inv s' ∧ extends s s' ∧ frame s s' ∧ valid s' w ∧
        ∀ a, D s' w a = if D s g a then D s u a else D s v a.
 Proof.
-  intros HI Hg Hu Hv Hoff Hrun.
+  intros HI Hg Hu Hv Hoff Hmx Hrun.
   apply ite_spec in Hrun as (?&?&?&Hr); try done; [|by right].
   destruct r as [w|e].
   - exists w. destruct Hr as (?&?&?). by split_and!.
-  - destruct Hr as [_ [l Hl]]. congruence.
+  - by destruct (benign_never s e Hoff Hmx).
 Qed.
